@@ -8,6 +8,7 @@ import (
 	"runtime"
 	"sync"
 	"testing"
+	"time"
 
 	webdav "github.com/emersion/go-webdav"
 )
@@ -25,7 +26,9 @@ func TestRaceFree(t *testing.T) {
 	var mu sync.Mutex
 	for _, procs := range []int{1, 2, 4, 16} {
 		old := runtime.GOMAXPROCS(procs)
-		for _, kind := range []string{"webdav", "caldav", "carddav"} {
+		// the prefix kinds several times: a write to handler state during the FIRST requests of a
+		// fresh handler is only exposed while those first requests overlap
+		for _, kind := range []string{"webdav", "caldav", "carddav", "caldav-prefix", "carddav-prefix", "caldav-prefix", "carddav-prefix", "caldav-prefix", "carddav-prefix"} {
 			const n = 8
 			sys := newSystem(kind, n, nil)
 			names := webdavOps
@@ -61,7 +64,16 @@ func TestRaceFree(t *testing.T) {
 					runUploadFree(h)
 				}()
 			}
-			wg.Wait()
+			// an upload completes in microseconds; one that has not returned after two minutes never will
+			// (exit code 124 = did not terminate, as timeout(1) reports it)
+			fin := make(chan struct{})
+			go func() { wg.Wait(); close(fin) }()
+			select {
+			case <-fin:
+			case <-time.After(2 * time.Minute):
+				fmt.Fprintf(os.Stderr, "C18 race pass: upload did not return: %s\n", h)
+				os.Exit(124)
+			}
 			ops += 2
 		}
 		// real sockets: one shared handler over LocalFileSystem, one shared client
